@@ -2,8 +2,8 @@ from store_common import *
 
 META = {
     "category": "proof",
-    "text": 'Per-file fact stores as state machines (coq/theories/Base/StoreSM.v: add / remove / clear / obs / mentions / size, with the driver update = remove;add, remove, reindex on top). For LuaModuleIndex (full refinement proof, shared with C33) Coq proves for EVERY driver history: re-submitting a file with unchanged facts changes no answer (resubmit_obs, outside the class "another file is registered under the same module path", whose violation is proved as resubmit_obs_shared_refuted), never changes a container count (resubmit_size: no growth), and edit-then-restore equals never touching the file (edit_restore). For LuaPropertyIndex the transcription proves the known defect (property_resubmit_refuted: re-submitting a file erases what another file contributed to a shared owner) and that every owner the file does not touch keeps its property in every reachable state (property_resubmit_outside_known). LuaPropertyIndex, LuaGlobalIndex and DiagnosticIndex models are tied by exact correspondence (queries + H2 container counts after every op); the whole analysis is searched end-to-end: multi-file workspaces, histories of re-submissions, batches and edit/restore pairs, full observable dump and H2 sizes compared with the state before.',
-    "note": 'Modelled and proved: LuaModuleIndex. Modelled, tied, partially proved: LuaPropertyIndex (frame theorem + refutation), LuaGlobalIndex, DiagnosticIndex (C09/C10 theorems). Not modelled (table obligations + end-to-end search only): LuaTypeIndex, LuaMemberIndex, LuaReferenceIndex, decl, signature, operator, flow, dependency, metatable, json-schema. Facts written for a file are an input of the model. Known open findings: results of an entity (class, global, module path) with contributions from several files depend on which file was submitted last; a library file sees main-workspace symbols only when re-submitted; JsonSchemaIndex is never cleaned. Axioms: none.',
+    "text": 'Per-file fact stores as state machines (coq/theories/Base/StoreSM.v: add / remove / clear / obs / mentions / size, with the driver update = remove;add, remove, reindex on top). For LuaModuleIndex (full refinement proof, shared with C33) Coq proves for EVERY driver history: re-submitting a file with unchanged facts changes no answer (resubmit_obs, outside the class "another file is registered under the same module path", whose violation is proved as resubmit_obs_shared_refuted), never changes a container count (resubmit_size: no growth), and edit-then-restore equals never touching the file (edit_restore). For LuaPropertyIndex the transcription proves the known defect (property_resubmit_refuted: re-submitting a file erases what another file contributed to a shared owner) and that every owner the file does not touch keeps its property in every reachable state (property_resubmit_outside_known). LuaPropertyIndex, LuaGlobalIndex, DiagnosticIndex and LuaTypeIndex (per-file part) models are tied by exact correspondence (queries + H2 container counts after every op); the whole analysis is searched end-to-end: multi-file workspaces, histories of re-submissions, batches and edit/restore pairs, full observable dump and H2 sizes compared with the state before.',
+    "note": 'Modelled and proved: LuaModuleIndex. Modelled, tied, partially proved: LuaPropertyIndex (frame theorem + refutation), LuaGlobalIndex, DiagnosticIndex (C09/C10 theorems). Not modelled (table obligations + end-to-end search only): LuaTypeIndex, LuaMemberIndex, LuaReferenceIndex, decl, signature, operator, flow, dependency, metatable, json-schema. Facts written for a file are an input of the model. Known open findings, each with its own signature computed from WHICH part of the dump differs: hover doc/deprecation of a type declared in several files (LuaPropertyIndex, one property per owner); order of the declarations of one global / of one field / of the super clauses of one class / of the files under one module path (submission order); a library file sees main-workspace symbols only when re-submitted (attributed by a causal re-run); JsonSchemaIndex is never cleaned. A change of the member set, of member or inferred types, of diagnostics or of type declarations is in none of them and is a VIOLATION. Axioms: none.',
     "technique": "Coq refinement proof (generic store state machine + invariant over all histories) about hand-written Gallina transcriptions + exact model-vs-implementation correspondence + end-to-end metamorphic search",
 }
 
@@ -36,8 +36,8 @@ def main(argv):
         trusted_base=TRUSTED,
         rule="correspondence: op sequences (add file facts / remove file / clear, 3-11 ops, 4 files, 4 owners-or-names) on the real LuaPropertyIndex, "
              "LuaGlobalIndex, DiagnosticIndex and add/remove/hide/clear/find sequences on the real LuaModuleIndex; non-trivial = an add followed by a remove or clear; "
-             "search: workspaces of 2-5 files (main + optional library root) built from 22 snippet kinds (documented and re-declared classes, fields, "
+             "search: workspaces of 2-5 files (main + optional library root) built from 30 snippet kinds (incl. one field declared for one class in several files, classes split across files with the super clause in one of them) (documented and re-declared classes, fields, "
              "subclasses, globals with docs, requires, aliases, enums, diagnostic annotations, typed locals, methods, deprecation, generics, metatables, "
-             "operators, @schema) with histories of 2-8 steps (resubmit, batch resubmit, edit+restore, remove, re-add, edit, reindex); a C08 step is judged "
+             "operators, @schema) with histories of 2-8 steps (resubmit, batch resubmit, edit+restore, remove, re-add, edit, configuration change + reindex, reindex) under 6 configurations (moduleMap set / changed / removed, strict require path, require patterns, extensions); a C08 step is judged "
              "when the state is consistent (after the full analysis or a reindex): dump and H2 sizes must equal the baseline; distinct by case",
         assumptions=ASSUMPTIONS)
